@@ -144,6 +144,31 @@ def evaluate(e, dtype):
         tol5 = 1e-12 if dtype == torch.float64 else 1e-5
         if float((y5.to(torch.float64) - y5ref).abs().max()) > tol5 * (1.0 + float(y5ref.abs().max())):
             fails.append("forward() of a layer converted after construction is not accurate in its current dtype (stale dtype inside forward?)")
+        # ONE layer object through a sequence of calls: inputs with different numbers of batch dimensions (the same extent as the first mode included),
+        # a forward without autograd, an in-place update of the parameters (what an optimiser step or load_state_dict does), the same forward again
+        torch.manual_seed(1)
+        L7 = __import__("torchtt").nn.LinearLayerTT(si, so, rk, dtype=dtype, initializer=e.init)
+        with torch.no_grad():
+            for p, c in zip(L7.cores, W0.cores): p.copy_(ttgen.to_torch(c, dtype))
+            L7.bias.copy_(ttgen.to_torch(e.args[1].arr, dtype))
+        def ref7(Xq, scale=1.0):
+            Wq = torch_full_ttm([ttgen.to_torch(c, torch.float64) * (scale if k_ == 0 else 1.0) for k_, c in enumerate(W0.cores)])
+            return torch.tensordot(Xq.to(torch.float64), Wq, dims=(list(range(Xq.dim() - d, Xq.dim())), list(range(d, 2 * d)))) + ttgen.to_torch(e.args[1].arr, torch.float64)
+        tol7 = 1e-12 if dtype == torch.float64 else 1e-5
+        gen7 = torch.Generator().manual_seed(len(fails) + d)
+        for nb7 in (0, 1, 2, 1, 3, 0):
+            Xq = torch.randint(-2, 3, [si[0]] * nb7 + list(si), generator=gen7).to(dtype)        # batch extents equal to the first mode: a wrong axis contracts silently
+            yq = L7.forward(Xq)
+            if list(yq.shape) != [si[0]] * nb7 + list(so) or float((yq.to(torch.float64) - ref7(Xq)).abs().max()) > tol7 * (1.0 + float(ref7(Xq).abs().max())):
+                fails.append("forward() of the same layer on an input with %d batch dimensions (after calls with other batch shapes) differs from the dense operator" % nb7); break
+        Xq = torch.randint(-2, 3, [2] + list(si), generator=gen7).to(dtype)
+        with torch.no_grad():
+            y_a = L7.forward(Xq)
+            L7.cores[0].mul_(2.0)
+            y_b = L7.forward(Xq)
+        for nm7, yq, sc7 in (("before", y_a, 1.0), ("after", y_b, 2.0)):
+            if float((yq.to(torch.float64) - ref7(Xq, sc7)).abs().max()) > tol7 * (1.0 + float(ref7(Xq, sc7).abs().max())):
+                fails.append("forward() without autograd %s an in-place update of a core differs from the dense operator of the current cores" % nm7)
     except Exception as ex:
         fails.append("layer construction / gradient check raised %s: %s" % (type(ex).__name__, str(ex)[:100]))
     return oi, fails
